@@ -97,6 +97,30 @@ def run_codeblock(variant, w, unchecked):
         elif variant == 'nested':
             inner = ast.CodeBlock((ast.Declaration(ast.Variable('z', I, False), L.opaque('i'), SPAN.start), ABlock('N', ALL, may_continue=True)), None, False).evaluate(env)
             stmts = (L.opaque('s1'), inner, L.opaque('s2'))
+        elif variant.startswith('arrays-'):
+            from hidc.ast import ArrayType
+            def lit(el, n, tag):
+                return ast.ArrayLiteral(tuple(L.opaque(f'e{tag}{k}', el) for k in range(n)), SPAN, ArrayType(el, const=False), True)
+            def dyn(el, tag):
+                return ast.ArrayInitializer(ArrayType(el, False), L.opaque('n' + tag))
+            def decl(name, el, init):
+                return ast.Declaration(ast.Variable(name, ArrayType(el, False), False), init, SPAN.start)
+            M = ABlock('M', ALL, may_continue=True)
+            if variant == 'arrays-literal':
+                stmts = (decl('a', I, lit(I, 2, 'a')), M, L.opaque('s2'))
+            elif variant == 'arrays-dynamic':
+                stmts = (decl('a', I, dyn(I, 'a')), M, L.opaque('s2'))
+            elif variant == 'arrays-bool-dynamic':
+                stmts = (L.opaque('s1'), decl('a', B, dyn(B, 'a')), M)
+            elif variant == 'arrays-literal-dynamic':
+                stmts = (decl('a', Y, lit(Y, 3, 'a')), decl('b', I, dyn(I, 'b')), M, L.opaque('s2'))
+            elif variant == 'arrays-dynamic-literal':
+                stmts = (decl('b', Y, dyn(Y, 'b')), ast.Declaration(ast.Variable('x', I, False), L.opaque('i'), SPAN.start), decl('a', I, lit(I, 2, 'a')), M)
+            elif variant == 'arrays-nested':
+                inner = ast.CodeBlock((decl('c', I, dyn(I, 'c')), ABlock('N', ALL, may_continue=True)), None, False).evaluate(env)
+                stmts = (decl('a', I, lit(I, 1, 'a')), inner, decl('d', Y, dyn(Y, 'd')), M)
+            else:
+                raise ValueError(variant)
         elif variant == 'noreturn-tail':
             stmts = (L.opaque('s1'), ABlock('M', ExitMode.RETURN | ExitMode.LOOP))
         else:
@@ -175,6 +199,7 @@ def tasks(tier):
             for cond in CONDS:
                 out.append(task(MOD, 'run_if', P, label=f'block/if/{cond}/w{w}/u{int(unchecked)}', cost=6, cond=cond, w=w, unchecked=unchecked))
                 out.append(task(MOD, 'run_loop', P, label=f'block/loop/{cond}/w{w}/u{int(unchecked)}', cost=6, cond=cond, w=w, unchecked=unchecked))
-            for v in ('expr-block-expr', 'decl-block', 'nested', 'noreturn-tail'):
+            arrays = ('arrays-literal', 'arrays-dynamic', 'arrays-bool-dynamic', 'arrays-literal-dynamic', 'arrays-dynamic-literal', 'arrays-nested')
+            for v in ('expr-block-expr', 'decl-block', 'nested', 'noreturn-tail') + (arrays if not unchecked else ('arrays-literal',)):
                 out.append(task(MOD, 'run_codeblock', P, label=f'block/code/{v}/w{w}/u{int(unchecked)}', cost=4, variant=v, w=w, unchecked=unchecked))
     return out
